@@ -259,6 +259,25 @@ class Inotify:
             if inotify_rm_watch(self._inotify_fd, wd) == -1:
                 Inotify._raise_error()
 
+    def remove_tree_watches(self, path: bytes) -> None:
+        """Stops watching the directory ``path`` and every directory below it.
+
+        Needed once a directory has been moved out of the monitored tree: its kernel
+        watches follow the inode, so changes made inside it at its new place would
+        still be reported - under the name it no longer has.
+
+        :param path:
+            Path under which the directory was known before it left the tree.
+        """
+        with self._lock:
+            if self._closed:
+                return
+            prefix = path + os.path.sep.encode()
+            for watched_path, wd in list(self._wd_for_path.items()):
+                if watched_path == path or watched_path.startswith(prefix):
+                    # The kernel answers with IN_IGNORED; handling that drops the book-keeping.
+                    inotify_rm_watch(self._inotify_fd, wd)
+
     def close(self) -> None:
         """Closes the inotify instance and removes all associated watches."""
         with self._lock:
